@@ -45,7 +45,7 @@ func jFromAST(n schema.ASTNode, out []zzjson.Ev) []zzjson.Ev {
 func jPiece(tag string, lit []byte) []byte {
 	switch zzverif.IntRange(tag+"piece", 0, 4) {
 	case 0:
-		return append(lit, zzverif.OneOf(tag+"c", "a0 :,{[/#@"))
+		return append(lit, zzverif.OneOf(tag+"c", "a0 :,{[/#@\x7f|*"))
 	case 1:
 		return append(lit, '\\', zzverif.OneOf(tag+"e", "\"\\/bfnrt"))
 	case 2:
